@@ -3254,13 +3254,21 @@ impl Zeroconf {
                     }
                 }
 
+                // A name that finished probing is ours even if its service is not announced
+                // yet (its other name may still be probing): defend it against other probers.
+                // (Our own probes are looped back to us: a re-registration must not answer itself.)
+                let from_myself = intf.addrs.iter().any(|addr| addr.ip() == querier_ip);
+                let defending = !from_myself && qtype == RRType::ANY && msg.num_authorities() > 0;
+
                 if qtype == RRType::A || qtype == RRType::AAAA || qtype == RRType::ANY {
                     for service in self.my_services.values() {
-                        if service.get_status(if_index) != ServiceStatus::Announced {
+                        let service_hostname = dns_registry.resolve_name(service.get_hostname());
+
+                        if service.get_status(if_index) != ServiceStatus::Announced
+                            && !(defending && dns_registry.active.contains_key(service_hostname))
+                        {
                             continue;
                         }
-
-                        let service_hostname = dns_registry.resolve_name(service.get_hostname());
 
                         if service_hostname.to_lowercase() == question.entry_name().to_lowercase() {
                             // Pick addresses based on the question type, not the
@@ -3319,7 +3327,12 @@ impl Zeroconf {
                     continue;
                 };
 
-                if service.get_status(if_index) != ServiceStatus::Announced {
+                if service.get_status(if_index) != ServiceStatus::Announced
+                    && !(defending
+                        && dns_registry
+                            .active
+                            .contains_key(dns_registry.resolve_name(service.get_fullname())))
+                {
                     continue;
                 }
 
